@@ -571,7 +571,7 @@ def run(ctx, selftest=False):
     validate(ctx, T_DMA, td1, 'dma', exd1)
 
     # 4. code -> spec: seeded random scenarios far beyond the model's bounds
-    plan = [('bench', 40, 14), ('benchmagic', 30, 14), ('emu', 10, 12), ('r9nano', 10, 12), ('mi300a', 4, 10)] if thorough else \
+    plan = [('bench', 40, 14), ('benchmagic', 30, 14), ('emu', 10, 12), ('r9nano', 6, 12), ('mi300a', 3, 10)] if thorough else \
            [('bench', 5, 12), ('benchmagic', 4, 12), ('emu', 1, 8), ('r9nano', 1, 8)]
     traces = [t1, t2]
     events = st1['events'] + st2['events']
